@@ -247,6 +247,52 @@ def stalled_peer_case():
                 error=None, aborted=False, first=got)
 
 
+def slow_callback_case():
+    """Serving side: the application's on_association_request() is slow for ONE peer (a directory look-up, an
+    authorisation service that takes its time); the other peers must be accepted and served meanwhile, and the entity
+    must be able to request associations itself meanwhile."""
+    from pynetdicom2 import applicationentity as aemod, sopclass
+    entered = threading.Event()
+    release = threading.Event()
+
+    class Srv(aemod.AE):
+        def on_association_request(self, asce, assoc):
+            if assoc.calling_ae_title.strip() == 'SLOW':
+                entered.set()
+                release.wait(8)
+    srv = Srv('SERVER', 0).add_scp(sopclass.verification_scp)
+    slow_cli = aemod.ClientAE('SLOW').add_scu(sopclass.verification_scu)
+    fast_cli = aemod.ClientAE('FAST').add_scu(sopclass.verification_scu)
+    slow_cli.timeout = fast_cli.timeout = 12
+    got = []
+
+    def slow_one(port):
+        try:
+            with slow_cli.request_association(loopback.remote(port)) as assoc:
+                got.append('slow:echo:%d' % int(assoc.get_scu(sopclass.VERIFICATION_SOP_CLASS)(1)))
+        except Exception as e:  # noqa
+            got.append('slow:%s' % type(e).__name__)
+    with loopback.serving(srv) as port:
+        t1 = threading.Thread(target=slow_one, args=(port,))
+        t1.daemon = True
+        t1.start()
+        entered.wait(5)
+        t0 = time.time()
+        fast = 'fast:not-finished'
+        try:
+            with fast_cli.request_association(loopback.remote(port)) as assoc:
+                fast = 'fast:echo:%d' % int(assoc.get_scu(sopclass.VERIFICATION_SOP_CLASS)(1))
+        except Exception as e:  # noqa
+            fast = 'fast:%s' % type(e).__name__
+        dt = time.time() - t0
+        if dt > 3.0:                    # far beyond what a loopback echo needs, yet below the callback's 8 s
+            fast += ':held-up-%.0fs' % dt
+        release.set()
+        t1.join(10)
+    return dict(client='slow-association-callback', expected=['fast:echo:0', 'slow:echo:0'], got=[fast] + got,
+                server_expected=[], server_stored=[], error=None, aborted=False)
+
+
 def same_instance_in_flight_case(workdir):
     """Directory-backed storage entity, the SAME SOP instance UID in flight on two associations at once: association A
     (a raw peer) has sent its C-STORE command and holds back the data set while association B stores the same
@@ -381,7 +427,7 @@ def main(tier, seed):
     n_clients = 8 if tier == 'quick' else 40
     loops = loopback_concurrency(rng, n_clients, tier)
     ids = msg_id_threads(8, 200) + msg_id_threads(1, 70000)
-    loops = loops + [stalled_peer_case()]
+    loops = loops + [stalled_peer_case(), slow_callback_case()]
     import shutil
     wd = os.path.join(common.BUILD, 'c20-%d' % os.getpid())
     shutil.rmtree(wd, ignore_errors=True)
